@@ -218,7 +218,9 @@ def _mem_design(seed):
     top = Module()
     cds = {}
     for dn in ("A", "B"):
-        cds[dn] = ClockDomain(dn, reset_less=True, clk_edge=rng.choice(["pos", "pos", "neg"]))
+        # memories have no reset: a domain reset (synchronous or asynchronous) must not disturb rows or read ports
+        cds[dn] = ClockDomain(dn, reset_less=rng.random() < 0.4, async_reset=rng.random() < 0.4,
+                              clk_edge=rng.choice(["pos", "pos", "neg"]))
         setattr(top.domains, dn, cds[dn])
     W = rng.choice([1, 2, 4, 6])
     abits = rng.choice([0, 1, 2, 3])
@@ -261,8 +263,12 @@ def _mem_design(seed):
     top.d.B += kb.eq(~kb)
     ins[cds["A"].clk.name] = cds["A"].clk
     ins[cds["B"].clk.name] = cds["B"].clk
+    rsts = [cd.rst.name for cd in cds.values() if cd.rst is not None]
+    for cd in cds.values():
+        if cd.rst is not None:
+            ins[cd.rst.name] = cd.rst
     ins = {k: v for k, v in ins.items() if len(v)}
-    events = rtlil_eq.random_events(rng, ins, [cds["A"].clk.name, cds["B"].clk.name], 40, coincident=False)
+    events = rtlil_eq.random_events(rng, ins, [cds["A"].clk.name, cds["B"].clk.name], 40, coincident=False, resets=rsts)
     return _mk(top, ins, outs, events, {"source": "mem", "seed": seed})
 
 
